@@ -13,6 +13,7 @@ CLAIMED = {
 }
 CLAIMED["C07"] = ("full (ZST raw locks excluded; compile-time half via the C15 corpus)", "Theorems C07_sorting_exact, C07_retry_exact, C07_monitor: try_new accepts exactly the inputs in which no lock / owned unit is reachable twice, for every shape and address assignment; the same monitor is evaluated on try_new(..).is_some() of the implementation", "7 C07", "list lemmas: sorted => adjacent test <=> not NoDup; HashSet scan <=> not NoDup")
 CLAIMED["C08"] = ("full", "Theorems C08_sort_perm_invariant, C08_common_same_order, C08_monitor: for all shapes, listing orders, modes and address assignments two sorting collections take their common locks in the same relative order (nested boxed/ref/retrying members by their leaves, owned collections as units); the same monitor runs on the sequence of blocking raw acquisitions of the implementation", "7 C08", "sortedness + uniqueness of sorted duplicate-free lists; history proof over the model")
+CLAIMED["C06"] = ("full", "Theorem C06_one_key with no hypotheses: for every scenario and history (faults, panics, leaks included) the model satisfies the key monitor; the same monitor and a ThreadKey::get() probe after every call run on the implementation", "7 C06", "invariant by induction over histories; per-call key-effect lemma over the program syntax")
 PENDING = {}
 props = [json.loads(l) for l in open(os.path.join(V, "properties.jsonl"))]
 checks, na = [], []
